@@ -1638,6 +1638,8 @@ static string opLts(const vector<string>& a)
 #include "ops/op_bddsim.inc"
 #include "ops/op_binrel.inc"
 #include "ops/op_cacheh.inc"
+#include "ops/op_glue.inc"
+#include "ops/op_cliargs.inc"
 
 // ---------------------------------------------------------------- API sweep (C20): every remaining public entry point of the four
 // encodings is called once on well-formed operands; each call may complete ('R'), throw NotImplementedException ('N') or
@@ -1776,6 +1778,8 @@ static string runCase(const string& kind, const vector<string>& args)
 	if (kind == "bddsim") return opBddsim(args);
 	if (kind == "binrel") return opBinrel(args);
 	if (kind == "cacheh") return opCacheh(args);
+	if (kind == "glue") return opGlue(args);
+	if (kind == "cliargs") return opCliargs(args);
 	return "BADKIND";
 }
 
